@@ -1494,25 +1494,12 @@ func (c *Conn) ApiVersions() ([]ApiVersion, error) {
 	}
 	defer lock.Unlock()
 
-	var errorCode int16
-	if size, err = readInt16(&c.rbuf, size, &errorCode); err != nil {
+	errorCode, r, err := c.readApiVersionsResponse(size)
+	if err != nil {
+		// The response was not entirely consumed, the connection cannot be
+		// used for another exchange.
+		c.conn.Close()
 		return nil, err
-	}
-	var arrSize int32
-	if size, err = readInt32(&c.rbuf, size, &arrSize); err != nil {
-		return nil, err
-	}
-	r := make([]ApiVersion, arrSize)
-	for i := 0; i < int(arrSize); i++ {
-		if size, err = readInt16(&c.rbuf, size, &r[i].ApiKey); err != nil {
-			return nil, err
-		}
-		if size, err = readInt16(&c.rbuf, size, &r[i].MinVersion); err != nil {
-			return nil, err
-		}
-		if size, err = readInt16(&c.rbuf, size, &r[i].MaxVersion); err != nil {
-			return nil, err
-		}
 	}
 
 	if errorCode != 0 {
@@ -1520,6 +1507,30 @@ func (c *Conn) ApiVersions() ([]ApiVersion, error) {
 	}
 
 	return r, nil
+}
+
+func (c *Conn) readApiVersionsResponse(size int) (errorCode int16, r []ApiVersion, err error) {
+	if size, err = readInt16(&c.rbuf, size, &errorCode); err != nil {
+		return
+	}
+	var arrSize int32
+	if size, err = readInt32(&c.rbuf, size, &arrSize); err != nil {
+		return
+	}
+	r = make([]ApiVersion, arrSize)
+	for i := 0; i < int(arrSize); i++ {
+		if size, err = readInt16(&c.rbuf, size, &r[i].ApiKey); err != nil {
+			return
+		}
+		if size, err = readInt16(&c.rbuf, size, &r[i].MinVersion); err != nil {
+			return
+		}
+		if size, err = readInt16(&c.rbuf, size, &r[i].MaxVersion); err != nil {
+			return
+		}
+	}
+	err = expectZeroSize(size, nil)
+	return
 }
 
 // connDeadline is a helper type to implement read/write deadline management on
